@@ -122,6 +122,7 @@ func (h *Handler) handleRequest(host *packet.Host, p packet.DHCP4, options packe
 
 	lease := h.findOrCreate(clientID, p.CHAddr(), nameEntry.Name)
 	taken := h.taken(lease, reqIP) // before the session learns reqIP from this request
+	expired := lease.State == StateAllocated && lease.DHCPExpiry.Before(time.Now())
 
 	// Main switch
 	switch operation {
@@ -149,7 +150,7 @@ func (h *Handler) handleRequest(host *packet.Host, p packet.DHCP4, options packe
 			return nil // request not for us - silently discard packet
 		}
 
-		if lease.State == StateFree || taken || // unknown or expired lease; address in use
+		if lease.State == StateFree || taken || expired || // unknown or expired lease; address in use
 			!bytes.Equal(lease.Addr.MAC, p.CHAddr()) || // invalid hardware
 			(lease.State == StateDiscover && (!bytes.Equal(lease.XID, p.XId()) || lease.IPOffer != reqIP)) || // invalid discover request
 			(lease.State == StateAllocated && lease.Addr.IP != reqIP) { // invalid request - iphone send duplicate select packets - let it pass
@@ -198,7 +199,7 @@ func (h *Handler) handleRequest(host *packet.Host, p packet.DHCP4, options packe
 			}
 		}
 
-		if lease.State != StateAllocated || taken ||
+		if lease.State != StateAllocated || taken || expired ||
 			lease.Addr.IP != reqIP || !bytes.Equal(lease.Addr.MAC, p.CHAddr()) ||
 			!subnet.LAN.Contains(lease.Addr.IP) {
 			Logger.Msg("request NACK - rebooting").ByteArray("xid", p.XId()).IP("ip", reqIP).Write()
